@@ -2,6 +2,7 @@ package main
 
 import (
 	"bytes"
+	"encoding/binary"
 	"encoding/hex"
 	"errors"
 	"fmt"
@@ -170,6 +171,9 @@ type sidEnv struct {
 }
 
 func (e *sidEnv) violation(prop, what string) {
+	if len(e.st.Violations) > 60 {
+		return
+	}
 	e.st.Violations = append(e.st.Violations, hx.Violation{
 		Property: prop, Stream: "slabid", Seed: e.cfg.Seed, Program: e.prog, What: what, Trace: e.w.Path,
 	})
@@ -322,6 +326,19 @@ func (e *sidEnv) idLine(id atree.SlabID) {
 	if vid != "-" && vid != hex.EncodeToString(raw) {
 		e.violation("C10", fmt.Sprintf("value identifier %s of a container whose root slab is %x", vid, raw))
 	}
+	// model-free: the successor of an index is the big-endian index + 1 (computed with
+	// encoding/binary), an identifier has the temporary address iff its address is all zero
+	var wantNext atree.SlabIndex
+	idx := id.Index()
+	binary.BigEndian.PutUint64(wantNext[:], binary.BigEndian.Uint64(idx[:])+1)
+	if next != wantNext {
+		e.violation("C09", fmt.Sprintf("SlabIndex(%x).Next() = %x, the big-endian successor is %x", id.Index(), next, wantNext))
+	}
+	if id.HasTempAddress() != (id.Address() == atree.Address{}) {
+		for _, p := range []string{"C03", "C15"} {
+			e.violation(p, fmt.Sprintf("HasTempAddress() = %v on the identifier %s", id.HasTempAddress(), rawHex(id)))
+		}
+	}
 	if int(atree.SlabIDStorable(id).ByteSize()) != len(enc) {
 		e.violation("C06", fmt.Sprintf("SlabIDStorable(%s): ByteSize %d, encoded %d bytes", id, atree.SlabIDStorable(id).ByteSize(), len(enc)))
 	}
@@ -371,6 +388,19 @@ func (e *sidEnv) fromRaw(b []byte) {
 	}
 	e.w.L("FROMRAW b=%s res=%s", hx0(b), res)
 	e.st.Ops++
+	// model-free: fewer than 16 bytes are refused; 16 or more give the identifier made of the first 16
+	if (len(b) < 16) != (err != nil) {
+		e.violation("C15", fmt.Sprintf("NewSlabIDFromRawBytes on %d bytes: %s", len(b), res))
+	}
+	if err == nil && len(b) >= 16 {
+		var a atree.Address
+		var i atree.SlabIndex
+		copy(a[:], b[:8])
+		copy(i[:], b[8:16])
+		if id != atree.NewSlabID(a, i) {
+			e.violation("C15", fmt.Sprintf("NewSlabIDFromRawBytes(%x) = %s", b, rawHex(id)))
+		}
+	}
 }
 
 // dec feeds DecodeSlabIDStorable a stream decoder positioned at a byte string with the given
@@ -830,6 +860,25 @@ func (e *sidEnv) ledgerPrograms(addrs [][8]byte, ids []atree.SlabID) {
 			}
 		}
 	}
+	if e.prog%2 == 1 {
+		// directed (no draw): the ledger call of the first request of one kind fails, the kind rotating
+		// with the program number, so that every run sees each of the four ledger calls fail
+		kind := []string{"gen", "store", "remove", "retrieve"}[(e.prog/2)%4]
+		call := 0
+		for _, op := range ops {
+			if op.kind == kind {
+				if !fail[call] {
+					fail[call] = true
+					failList = append(failList, fmt.Sprintf("%d", call))
+				}
+				e.st.Hit("ledger.directed-fault:" + kind)
+				break
+			}
+			if op.kind != "reset" {
+				call++
+			}
+		}
+	}
 	junk := []byte{}
 	if e.rng.Intn(2) == 0 {
 		junk = []byte{0xde, 0xad, 0xbe}
@@ -845,6 +894,8 @@ func (e *sidEnv) ledgerPrograms(addrs [][8]byte, ids []atree.SlabID) {
 		}
 		errStr := func(err error) string {
 			if hx.ErrCategory(err) != "External" || !errors.Is(err, errLedger) {
+				// model-free: a failure of the caller's ledger comes back as an external error that wraps it
+				e.violation("C15", fmt.Sprintf("LedgerBaseStorage reported the ledger's failure as %s (%v)", hx.ErrKind(err), err))
 				return "err:notExternal:" + err.Error()
 			}
 			return "err"
